@@ -49,7 +49,10 @@ type caseA struct {
 	NoChecksum bool `json:"no_checksum"` // proxy started with --disable-checksum
 	Owner      bool `json:"owner"`       // the bucket is created by a non-root account (carol) instead of root
 	ACLs       bool `json:"acls"`        // the bucket is created with ACLs enabled (object ownership BucketOwnerPreferred)
-	Ops        []op `json:"ops"`
+	// NameForm: the shape of the (valid) bucket name: "" plain; dotted (labels separated by dots); express / olap / alias
+	// (suffixes --x-s3, --ol-s3, -s3alias that client libraries give a meaning of their own); xn (prefix xn--)
+	NameForm string `json:"name_form,omitempty"`
+	Ops      []op   `json:"ops"`
 }
 
 var keyNames = []string{"a", "dir/b", "dir/sub/c", "x y+z", "ü/é"}
@@ -682,6 +685,18 @@ func execA(c caseA) (st stats, err error) {
 	}
 	caseNo++
 	bkt := fmt.Sprintf("px%d-%d", os.Getpid(), caseNo)
+	switch c.NameForm {
+	case "dotted":
+		bkt = fmt.Sprintf("px%d.%d.d", os.Getpid(), caseNo)
+	case "express":
+		bkt += "--x-s3"
+	case "olap":
+		bkt += "--ol-s3"
+	case "alias":
+		bkt += "-s3alias"
+	case "xn":
+		bkt = "xn--" + bkt
+	}
 	sides := []*side{{name: "endpoint", root: s3c.NewClient(p.direct, gw.DefaultRoot), uploads: map[int]*upl{}},
 		{name: "proxy", root: s3c.NewClient(p.proxy.Proc, gw.DefaultRoot), uploads: map[int]*upl{}}}
 	run := func(where string, o op) error {
@@ -800,6 +815,9 @@ func execA(c caseA) (st stats, err error) {
 		mk.Meta = 1
 	}
 	if err := run("CreateBucket", mk); err != nil {
+		if c.NameForm == "express" {
+			return st, fmt.Errorf("bucket name ending in --x-s3 (the sdk's S3 Express suffix): %w", err)
+		}
 		return st, err
 	}
 	for i, o := range c.Ops {
@@ -929,6 +947,7 @@ func TestC18A(t *testing.T) {
 		c.NoChecksum = rapid.Bool().Draw(t, "no_checksum")
 		c.Owner = rapid.Bool().Draw(t, "owner")
 		c.ACLs = rapid.Bool().Draw(t, "acls")
+		c.NameForm = rapid.SampledFrom([]string{"", "", "", "", "", "", "dotted", "express", "olap", "alias", "xn"}).Draw(t, "name_form")
 		c.Ops = opsGen(thorough).Draw(t, "ops")
 		versioned := false
 		if rapid.IntRange(0, 2).Draw(t, "versioned") == 0 {
@@ -957,7 +976,10 @@ func TestC18A(t *testing.T) {
 		if versioned {
 			cls = append(cls, "versioned-bucket")
 		}
-		ev.Case(fmt.Sprintf("%v|%v|%v|%v|%+v", c.TLS, c.NoChecksum, c.Owner, c.ACLs, c.Ops), st.Multi > 0 || st.Paged > 0 || st.Meta > 0 || st.User > 0, cls...)
+		if c.NameForm != "" {
+			cls = append(cls, "bucket-name:"+c.NameForm)
+		}
+		ev.Case(fmt.Sprintf("%v|%v|%v|%v|%s|%+v", c.TLS, c.NoChecksum, c.Owner, c.ACLs, c.NameForm, c.Ops), st.Multi > 0 || st.Paged > 0 || st.Meta > 0 || st.User > 0, cls...)
 		ev.Sample(cls[0], 1, c)
 		if err != nil {
 			if strings.HasPrefix(err.Error(), "SETUP") {
